@@ -58,6 +58,7 @@ type Network struct {
 	listeners map[string]*Listener
 	handlers  map[string]func(attempt int, from *net.TCPAddr) DialOutcome
 	attempts  map[string]int
+	Opaque    bool // connections reach the library wrapped in a plain net.Conn
 	Conns     []*Conn
 	Dials     []DialAttempt
 	eph       int
@@ -69,8 +70,16 @@ type Network struct {
 var current *Network
 
 // New creates the network of the current execution.
+// OpaqueDefault makes every network created while it is set hand the library its connections wrapped in a
+// plain net.Conn (scenario twins "@opaque"): what a library gets from a listener or dialer that is not the
+// operating system's - a type assertion to *net.TCPConn fails, net.Buffers degrades to one Write per buffer.
+var OpaqueDefault bool
+
+// opaqueConn hides the concrete type (and every method beyond net.Conn's) of a virtual connection.
+type opaqueConn struct{ net.Conn }
+
 func New(libHost string) *Network {
-	nw := &Network{LibHost: libHost, listeners: map[string]*Listener{}, handlers: map[string]func(int, *net.TCPAddr) DialOutcome{}, attempts: map[string]int{}, eph: 40000}
+	nw := &Network{Opaque: OpaqueDefault, LibHost: libHost, listeners: map[string]*Listener{}, handlers: map[string]func(int, *net.TCPAddr) DialOutcome{}, attempts: map[string]int{}, eph: 40000}
 	nw.obj = vrt.NewObj("network")
 	nw.obj.NoSync = true
 	current = nw
@@ -552,6 +561,9 @@ func (l *Listener) Accept() (net.Conn, error) {
 	c := l.queue[0]
 	l.queue = l.queue[1:]
 	c.Accepted = true
+	if l.nw.Opaque {
+		return opaqueConn{c}, nil
+	}
 	return c, nil
 }
 
@@ -671,6 +683,9 @@ func (nw *Network) Dial(ctx context.Context, local net.Addr, address string, con
 	if out.Serve != nil {
 		serve := out.Serve
 		vrt.GoWorld(fmt.Sprintf("remote-out%d", lib.ID), func() { serve(rem) })
+	}
+	if nw.Opaque {
+		return opaqueConn{lib}, nil
 	}
 	return lib, nil
 }
